@@ -171,48 +171,64 @@ func (t *Target) ProcessAccessRules() error {
 }
 
 func (t *Target) parseAccessRule(allowDeny string) error {
-	var accessTag string
-	var temps []string
-	var value string
-	var ip net.IP
-
 	// init rules if needed
 	if t.accessRules == nil {
 		t.accessRules = make(map[string][]interface{})
 	}
 
-	// loop over rule elements
+	// An allow list admits only what it lists: make sure it exists even if
+	// none of its elements can be parsed so that the target is not left
+	// unrestricted.
+	if allowDeny == "allow" && t.accessRules[ipAllowTag] == nil {
+		t.accessRules[ipAllowTag] = []interface{}{}
+	}
+
+	// loop over rule elements. An element which cannot be parsed is reported
+	// but must not stop the remaining elements from being applied.
+	var firstErr error
 	for _, c := range strings.Split(t.Opts[allowDeny], ",") {
-		if temps = strings.SplitN(c, ":", 2); len(temps) != 2 {
-			return fmt.Errorf("invalid access item, expected <type>:<data>, got %s", temps)
+		if err := t.parseAccessItem(allowDeny, c); err != nil && firstErr == nil {
+			firstErr = err
 		}
+	}
+	return firstErr
+}
 
-		// form access type tag
-		accessTag = allowDeny + ":" + strings.ToLower(strings.TrimSpace(temps[0]))
+func (t *Target) parseAccessItem(allowDeny, c string) error {
+	var accessTag string
+	var temps []string
+	var value string
+	var ip net.IP
 
-		// switch on formed access tag - currently only ip types are implemented
-		switch accessTag {
-		case ipAllowTag, ipDenyTag:
-			if value = strings.TrimSpace(temps[1]); !strings.Contains(value, "/") {
-				if ip = net.ParseIP(value); ip == nil {
-					return fmt.Errorf("failed to parse IP %s", value)
-				}
-				if ip.To4() != nil {
-					value = ip.String() + "/32"
-				} else {
-					value = ip.String() + "/128"
-				}
+	if temps = strings.SplitN(c, ":", 2); len(temps) != 2 {
+		return fmt.Errorf("invalid access item, expected <type>:<data>, got %s", temps)
+	}
+
+	// form access type tag
+	accessTag = allowDeny + ":" + strings.ToLower(strings.TrimSpace(temps[0]))
+
+	// switch on formed access tag - currently only ip types are implemented
+	switch accessTag {
+	case ipAllowTag, ipDenyTag:
+		if value = strings.TrimSpace(temps[1]); !strings.Contains(value, "/") {
+			if ip = net.ParseIP(value); ip == nil {
+				return fmt.Errorf("failed to parse IP %s", value)
 			}
-			_, net, err := net.ParseCIDR(value)
-			if err != nil {
-				return fmt.Errorf("failed to parse CIDR %s with error: %s",
-					c, err.Error())
+			if ip.To4() != nil {
+				value = ip.String() + "/32"
+			} else {
+				value = ip.String() + "/128"
 			}
-			// add element to rule map
-			t.accessRules[accessTag] = append(t.accessRules[accessTag], net)
-		default:
-			return fmt.Errorf("unknown access item type: %s", temps[0])
 		}
+		_, net, err := net.ParseCIDR(value)
+		if err != nil {
+			return fmt.Errorf("failed to parse CIDR %s with error: %s",
+				c, err.Error())
+		}
+		// add element to rule map
+		t.accessRules[accessTag] = append(t.accessRules[accessTag], net)
+	default:
+		return fmt.Errorf("unknown access item type: %s", temps[0])
 	}
 
 	return nil
